@@ -58,6 +58,19 @@ def visit(acc, blk, vec, asg, idx):
     if blk.meta.get("reverse"):        # the same fields written in reverse order
         P = T.PREFIX[blk.family]
         vec = P + "/".join(reversed(vec[len(P):].split("/")))
+    elif blk.meta.get("order"):
+        P = T.PREFIX[blk.family]
+        f = vec[len(P):].split("/")
+        if blk.meta["order"] == "env_first":     # base, environmental, temporal
+            tnames = set(T.V2_TEMPORAL if blk.family == "2" else T.V3_TEMPORAL)
+            mand = set(T.MANDATORY[blk.family])
+            key = lambda x: 0 if x.split(":")[0] in mand else (2 if x.split(":")[0] in tnames else 1)
+            f = sorted(f, key=key)               # stable: order inside each group is kept
+        elif blk.meta["order"] == "rotate":      # second half of the fields first
+            f = f[len(f) // 2:] + f[:len(f) // 2]
+        elif blk.meta["order"] == "interleave":  # optional fields between the base fields
+            f = f[1::2] + f[0::2]
+        vec = P + "/".join(f)
     acc["n"] += 1
     acc["calls"] += 6
     why, obs = judge(blk.family, vec, asg)
@@ -93,10 +106,22 @@ def v3_env_two_values():
     return parts(T.V3_ENV, dom)
 
 
+def few(tsp, fam):
+    """Three temporal spellings for blocks whose subject is the other group: absent, every metric
+    explicitly Not Defined, every metric at its last value."""
+    nd = T.ND[fam]
+    names = T.V2_TEMPORAL if fam == "2" else T.V3_TEMPORAL
+    all_nd = [p for p in tsp if len(p[1]) == len(names) and all(v == nd for v in p[1].values())]
+    mixed = [p for p in tsp if len(p[1]) == len(names) and list(p[1].values())[0] == nd and list(p[1].values())[-1] != nd]
+    return [tsp[0], all_nd[0], mixed[len(mixed) // 2], tsp[-1]]
+
+
 def pick_bases(fam, n):
     allb = spaces.v2_base_all() if fam == "2" else spaces.v3_base_all()
     step = max(1, len(allb) // n)
-    return allb[::step][:n]
+    while step > 1 and (step % 2 == 0 or step % 3 == 0):   # coprime with the domain sizes 2, 3, 4
+        step -= 1
+    return allb[step // 2::step][:n]
 
 
 def blocks(tier):
@@ -106,33 +131,40 @@ def blocks(tier):
     if thorough:
         blocks.append(Block("v2.t_x_e_spellings", "2", pick_bases("2", 3), tsp2, esp2))
     else:
-        blocks.append(Block("v2.t_x_e_spellings", "2", pick_bases("2", 1), tsp2[::3], esp2))
+        blocks.append(Block("v2.t_x_e_spellings", "2", pick_bases("2", 1), spaces.thin(tsp2, 3), esp2))
     blocks.append(Block("v2.all_base_x_t_spellings", "2", spaces.v2_base_all(), tsp2))
     blocks.append(Block("v2.all_base_x_e_spellings", "2",
-                        spaces.v2_base_all() if thorough else spaces.v2_base_all()[::9],
+                        spaces.v2_base_all() if thorough else spaces.thin(spaces.v2_base_all(), 9),
                         spaces.ABSENT, esp2))
-    blocks.append(Block("v2.all_base_x_env_partial", "2", spaces.v2_base_all(), tsp2[::60],
+    blocks.append(Block("v2.all_base_x_env_partial", "2", spaces.v2_base_all(), few(tsp2, "2"),
                         spaces.v2_env_partial()))
     tsp3 = parts(T.V3_TEMPORAL, dict((m, [None] + T.V3[m]) for m in T.V3_TEMPORAL))
     fam, twin = "3.0", "3.1"
     blocks.append(Block("v3.all_base_x_t_spellings", fam, spaces.v3_base_all(), tsp3, twin=twin))
     if thorough:
-        blocks.append(Block("v3.env<=3_departures", fam, pick_bases(fam, 24), tsp3[::45],
+        blocks.append(Block("v3.env<=3_departures", fam, pick_bases(fam, 24), few(tsp3, "3.0"),
                             v3_env_departures(3), twin=twin))
         blocks.append(Block("v3.all_base_x_env<=1", fam, spaces.v3_base_all(), spaces.ABSENT,
                             v3_env_departures(1), twin=twin))
     else:
-        blocks.append(Block("v3.env<=2_departures", fam, pick_bases(fam, 16), tsp3[::60],
+        blocks.append(Block("v3.env<=2_departures", fam, pick_bases(fam, 16), few(tsp3, "3.0"),
                             v3_env_departures(2), twin=twin))
-        blocks.append(Block("v3.all_base_x_env<=1", fam, spaces.v3_base_all()[::4], spaces.ABSENT,
+        blocks.append(Block("v3.all_base_x_env<=1", fam, spaces.thin(spaces.v3_base_all(), 4), spaces.ABSENT,
                             v3_env_departures(1), twin=twin))
     blocks.append(Block("v3.env_two_values", fam, pick_bases(fam, 12 if thorough else 4),
-                        tsp3[::90], v3_env_two_values(), twin=twin))
+                        few(tsp3, "3.0"), v3_env_two_values(), twin=twin))
     # input order must not matter for the sub-vectors either: reversed field order
-    blocks.append(Block("v3.reversed.all_base_x_env<=1", fam, spaces.v3_base_all()[::4 if not thorough else 1],
-                        tsp3[::90], v3_env_departures(1), twin=twin, meta={"reverse": True}))
-    blocks.append(Block("v2.reversed.all_base_x_env_partial", "2", spaces.v2_base_all()[::3 if not thorough else 1],
-                        tsp2[::60], spaces.v2_env_partial(), meta={"reverse": True}))
+    blocks.append(Block("v3.reversed.all_base_x_env<=1", fam, spaces.thin(spaces.v3_base_all(), 4 if not thorough else 1),
+                        few(tsp3, "3.0"), v3_env_departures(1), twin=twin, meta={"reverse": True}))
+    blocks.append(Block("v2.reversed.all_base_x_env_partial", "2", spaces.thin(spaces.v2_base_all(), 3 if not thorough else 1),
+                        few(tsp2, "2"), spaces.v2_env_partial(), meta={"reverse": True}))
+    # complete spellings (every metric written out among them) in three more field orders
+    for order in ("env_first", "rotate", "interleave"):
+        blocks.append(Block("v2.%s.t_x_e_spellings" % order, "2", pick_bases("2", 3 if thorough else 1),
+                            spaces.thin(tsp2, 1 if thorough else 5), esp2, meta={"order": order}))
+        blocks.append(Block("v3.%s.env_two_values" % order, fam, pick_bases(fam, 6 if thorough else 2),
+                            few(tsp3, "3.0"), v3_env_two_values(), twin=twin,
+                            meta={"order": order}))
     if thorough:
         # the complete environmental spelling space (30,000,000) on one base vector, v3.1
         full = dict((m, [None] + T.V3[m]) for m in T.V3_ENV)
